@@ -1,15 +1,35 @@
 /-
-C09 — obligation over the regenerated table `Generated.C09.applyWrites` (rewritten from the live classes on
-every run): no transform class but the caching piecewise affine writes any of its instance attributes while
-applying.  Together with `pure_of_no_writes` (frame ⇒ history independence) and `apply_pure_fixed` (the memo
-of the caching class) this is what makes "apply() is pure" a statement about the current code of every class.
+C09 — obligations over the tables of `Generated/C09Writes.lean` (rewritten from the live classes and modules on
+every run):
+
+* `applyWrites_ok`   no transform class but the caching piecewise affine writes any of its instance attributes
+                     during any of the public applications (arrays, shapes, every batching variant, zero points,
+                     integer input, `_apply_inplace`, through a chain / a composition / a copy / the pseudoinverse);
+* `transformClasses_covered`  every subclass of `Transform` the live package defines is in that table, except the
+                     abstract bases;
+* `hiddenState_ok`   the anchored modules offer no other place where state could survive between two calls
+                     (mutable module globals, mutable class attributes, mutable defaults, function attributes,
+                     memoising wrappers, closures over mutable cells);
+* `globalWrites_ok`  and the measured applications change no module global and no class attribute.
+
+Together with `pure_of_no_writes` / `apply_eq_fresh` (frame ⇒ history independence = fresh transform) and
+`apply_pure_fixed` / `cachedPwa_history_pure` (the memo of the caching class) this is what makes "apply() is
+pure" a statement about the current code of every class.
 -/
-import MenpoModel.Props.C09
+import MenpoModel.Core.C09
 import MenpoModel.Generated.C09Writes
 
 namespace MenpoModel.GenProps.C09
 open MenpoModel.C09
 
 theorem applyWrites_ok : MenpoModel.Generated.C09.applyWrites = expectedApplyWrites := by decide
+
+theorem transformClasses_covered :
+    (MenpoModel.Generated.C09.transformClasses.filter fun c =>
+        !(MenpoModel.Generated.C09.applyWrites.any fun w => w.1 == c)) = expectedUncovered := by decide
+
+theorem hiddenState_ok : MenpoModel.Generated.C09.hiddenState = expectedHiddenState := by decide
+
+theorem globalWrites_ok : MenpoModel.Generated.C09.globalWrites = [] := by decide
 
 end MenpoModel.GenProps.C09
